@@ -126,6 +126,43 @@ func main() {
 				fn.WriteTo(os.Stdout)
 			}
 		}
+	case "params":
+		// prints, for every verified contract, the current receiver/parameter/result names
+		ld, err := loadRepo(repoDir, filepath.Join(verifDir, "engine", "contracts"))
+		if err != nil {
+			fmt.Fprintln(os.Stderr, err)
+			os.Exit(2)
+		}
+		for _, k := range ld.cs.Order {
+			c := ld.cs.Funcs[k]
+			if c.Assumed || c.Iface || len(ld.fnByKey[k]) == 0 {
+				continue
+			}
+			fn := ld.fnByKey[k][0]
+			var ps, rs []string
+			for _, p := range fn.Params {
+				n := p.Name()
+				if n == "" {
+					n = "_"
+				}
+				ps = append(ps, n)
+			}
+			named := false
+			res := fn.Signature.Results()
+			for i := 0; i < res.Len(); i++ {
+				n := res.At(i).Name()
+				if n == "" {
+					n = "_"
+				} else {
+					named = true
+				}
+				rs = append(rs, n)
+			}
+			if !named {
+				rs = nil
+			}
+			fmt.Printf("%s\t%s\t%d\t%s\t%s\n", c.File, k, c.Line, strings.Join(ps, " "), strings.Join(rs, " "))
+		}
 	case "methods":
 		// prints the methods clauses for every type of the repository with exported methods
 		ld, err := loadRepo(repoDir, filepath.Join(verifDir, "engine", "contracts"))
